@@ -83,9 +83,10 @@ Theorem C02_scalar_objects_exact : forall idf cf defs fmt_ok env sdefs f fd fv s
 Proof. exact scalar_object_exact. Qed.
 Print Assumptions C02_scalar_objects_exact.
 
-(* ... and through every depth: objects whose properties are such scalars (or numbers with any combination of the four bounds and no
-   multipleOf) or, recursively, such objects again, nested n levels deep
-   ([sobj n]); documents without nulls, with ASCII strings, integer literals inside Go's int and distinct keys at every level ([dok n]).
+(* ... and through every depth: objects whose properties are such scalars, numbers with any combination of the four bounds (no
+   multipleOf), arrays of plain strings with any item-count limits, or, recursively, such objects again, nested n levels deep
+   ([sobj n]); documents without nulls (array items included), with ASCII strings, integer literals inside Go's int and distinct keys at
+   every level ([dok n]).
    By induction on n over C02_level_exact: the check attached to an object-valued property is the nested struct's own method. *)
 Theorem C02_nested_objects_exact : forall idf cf defs fmt_ok env sdefs,
   g_minsized cf = false -> g_only_models cf = false ->
@@ -106,6 +107,16 @@ Theorem C02_nested_inhabited :
     valid (fun _ _ => true) [] (fuelV 1 0) ex_outer (JObj ex_outer_bad) = false.
 Proof. exact nested_inhabited. Qed.
 Print Assumptions C02_nested_inhabited.
+
+(* non-vacuity of the array and number leaves: {tags: [string] with 1..2 items (required), w: number >= 1/2} on a valid document, one with
+   three items and one with w = 1/4 *)
+Theorem C02_flat_inhabited :
+  exists t b, gen (fun s => s) (mkCfg false false) [] (fuelG 0 1) MDeclared None false ex_flat [82]%N = Done (t, b) /\
+    (forall kv, In kv [ex_flat_ok; ex_flat_long; ex_flat_low] ->
+       is_ok (dec (fun _ _ => true) [] (fuelD 0 0) t (JObj kv)) = valid (fun _ _ => true) [] (fuelV 0 0) ex_flat (JObj kv)) /\
+    map (fun kv => valid (fun _ _ => true) [] (fuelV 0 0) ex_flat (JObj kv)) [ex_flat_ok; ex_flat_long; ex_flat_low] = [true; false; false].
+Proof. exact flat_inhabited. Qed.
+Print Assumptions C02_flat_inhabited.
 
 Theorem C02_string : forall fmt_ok env f s, dec fmt_ok env (S f) TString (JStr s) = Ok (GS s).
 Proof. exact dec_string_lossless. Qed.
